@@ -1496,7 +1496,7 @@ MANIFEST = {
             "(R^3 over R^2; SE(2) over R^2 aborts inside solve on the unchanged tree and is counted as a crash) are run on random and adversarial box environments and every reported "
             "solution is judged by an independent spec oracle (valid in-bounds start, bounds, goal/approximate/difference/status "
             "consistency, no invalid stretch longer than twice the resolution length, and for planners in the strict table every "
-            "consecutive pair passes the motion check again; non-solution statuses add no path), including Dubins and Reeds-Shepp "
+            "consecutive pair passes the motion check again, for RRT / RRTConnect with intermediate states every path state is valid; non-solution statuses add no path), including Dubins and Reeds-Shepp "
             "spaces for the planners that support them, a direction-sensitive motion validator (a motion may be valid one way and "
             "invalid the other: no reported edge may be blocked in the direction the path travels it, enforced for the planners "
             "whose code validates the travelled direction, counted for the others), and the constructive unobserved-gap attack "
